@@ -247,6 +247,74 @@ func driveVerify(c *ctx) {
 		allEnc(q, digest, r, s, v)
 		raw(q, digest, add(r, 1), s)
 	}
+	// constructed: a VALID signature one of whose halves fits twice below 2^256 (r or s < 2^256 - n): the strict compact encodings
+	// carry the value itself, never value + n — with exactly ONE half shifted by n the string must be rejected, although it verifies
+	// once reduced.  Also the unreduced abscissa (x in [n, p)) in the r slot.
+	{
+		room := new(big.Int).Sub(big2_256, bigN)
+		for i := 0; i < c.scale(6, 40); i++ {
+			digest := randBytes(rng, 32)
+			var r, sv *big.Int
+			v := byte(0)
+			if i%2 == 0 { // small r: the abscissa of a point, taken from 1, 2, 3, ... or anywhere below 2^256 - n
+				x := big.NewInt(int64(1 + rng.Intn(50)))
+				if i%4 == 0 {
+					x = randBig(rng, room)
+				}
+				for sqrtP(yyOf(x)) == nil || x.Sign() == 0 {
+					x = add(x, 1)
+				}
+				r, sv = x, add(randBig(rng, add(bigN, -1)), 1)
+				v = byte(sqrtP(yyOf(x)).Bit(0))
+			} else { // small s over an honest nonce point
+				k := add(randBig(rng, add(bigN, -1)), 1)
+				R := mulG(k).UncompressedBytes()
+				r = new(big.Int).Mod(new(big.Int).SetBytes(R[1:33]), bigN)
+				v = R[64] & 1
+				if new(big.Int).SetBytes(R[1:33]).Cmp(bigN) >= 0 {
+					v |= 2
+				}
+				sv = add(randBig(rng, add(room, -1)), 1)
+				if i%4 == 1 {
+					sv = big.NewInt(int64(1 + rng.Intn(3)))
+				}
+			}
+			q := constructKey(digest, r, sv, v)
+			if q == nil || r.Sign() == 0 {
+				continue
+			}
+			raw(q, digest, r, sv)
+			shifted := func(a, b *big.Int) []byte { return append(append([]byte{}, be32(a)[:]...), be32(b)[:]...) }
+			var sigs [][]byte
+			if r.Cmp(room) < 0 {
+				sigs = append(sigs, shifted(add2(r, bigN), sv))
+			}
+			if sv.Cmp(room) < 0 {
+				sigs = append(sigs, shifted(r, add2(sv, bigN)))
+			}
+			if r.Cmp(room) < 0 && sv.Cmp(room) < 0 {
+				sigs = append(sigs, shifted(add2(r, bigN), add2(sv, bigN)))
+			}
+			sigs = append(sigs, shifted(r, sv))
+			for _, sg := range sigs {
+				for _, rm := range []bool{false, true} {
+					enc(q, digest, sg, &secec.ECDSAOptions{Encoding: secec.EncodingCompact, RejectMalleable: rm})
+					enc(q, digest, append(append([]byte{}, sg...), v), &secec.ECDSAOptions{Encoding: secec.EncodingCompactRecoverable, RejectMalleable: rm})
+				}
+			}
+		}
+		for _, R := range pointsWithXAboveN(rng, 3) {
+			r := new(big.Int).Sub(R.x, bigN)
+			sv := add(randBig(rng, add(bigN, -1)), 1)
+			digest := randBytes(rng, 32)
+			v := byte(2 + R.y.Bit(0))
+			if q := constructKey(digest, r, sv, v); q != nil {
+				sg := append(append([]byte{}, be32(R.x)[:]...), be32(sv)[:]...)
+				enc(q, digest, sg, &secec.ECDSAOptions{Encoding: secec.EncodingCompact})
+				enc(q, digest, append(sg, v), &secec.ECDSAOptions{Encoding: secec.EncodingCompactRecoverable})
+			}
+		}
+	}
 	// constructed: R = infinity:  Q = dG, e = -r d  =>  u1 G + u2 Q = 0
 	for i := 0; i < c.scale(6, 60); i++ {
 		d := add(randBig(rng, add(bigN, -1)), 1)
@@ -741,6 +809,16 @@ func scHexOr(s *secp256k1.Scalar) string {
 
 func driveRecover(c *ctx) {
 	rng := rand.New(rand.NewSource(c.seed))
+	// keys recovered EARLIER are kept and used again after later recoveries (the "try every id and keep the candidates" idiom):
+	// a key object is its own, whatever the library recovers afterwards
+	type keptKey struct {
+		q      *secec.PublicKey
+		bytes  string
+		digest []byte
+		r, s   *big.Int
+	}
+	var kept []keptKey
+	nrec := 0
 	rec := func(digest []byte, r, s *big.Int, v int, honest bool, signer string) {
 		q, err := secec.RecoverPublicKey(digest, scFrom(r), scFrom(s), byte(v))
 		o := ""
@@ -750,6 +828,21 @@ func driveRecover(c *ctx) {
 			c.E("vfy.Raw", "q", o, "digest", hx(digest), "r", h32(r), "s", h32(s), "out", q.VerifyRaw(digest, scFrom(r), scFrom(s)))
 		}
 		c.E("rec.Recover", "digest", hx(digest), "r", h32(r), "s", h32(s), "v", v, "ok", err == nil, "q", o, "honest", honest, "signer", signer)
+		nrec++
+		for i, k := range kept {
+			if (nrec+i)%3 != 0 && len(kept) > 1 {
+				continue
+			}
+			c.E("vfy.Raw", "q", k.bytes, "digest", hx(k.digest), "r", h32(k.r), "s", h32(k.s), "out", k.q.VerifyRaw(k.digest, scFrom(k.r), scFrom(k.s)), "kept_key", 1)
+			c.E("sig.Stable", "then", k.bytes, "now", hx(k.q.Point().UncompressedBytes()), "later_enc", "recovered_key")
+			c.E("sig.Stable", "then", k.bytes, "now", hx(k.q.Bytes()), "later_enc", "recovered_key_bytes")
+		}
+		if err == nil {
+			kept = append(kept, keptKey{q, o, digest, r, s})
+			if len(kept) > 3 {
+				kept = kept[1:]
+			}
+		}
 	}
 	// cold start: the first library calls of this process are recoveries of math/big signatures (all four ids)
 	for i := 0; i < 2; i++ {
@@ -1213,3 +1306,5 @@ func driveKeys(c *ctx) {
 		}
 	}
 }
+
+func add2(a, b *big.Int) *big.Int { return new(big.Int).Add(a, b) }
